@@ -41,8 +41,9 @@ def events(r):
             gets.append(("XGet %s true %s" % (gb(w["vaas"][0]), gb(res)), "lookup of slot %d of writer %d after the reopen: version %d" % (w["slot"], w["g"], w["gotver"])))
         else:
             gets.append(("XGet %s false (B [0]%%uint63)" % gb(w["vaas"][0]), "lookup of slot %d of writer %d after the reopen: not found" % (w["slot"], w["g"])))
-    ev += ["XCrash", "XReopen"]
-    desc += ["SIGKILL", "Open on the same directory"]
+    for k in range(1 + int(r.get("later_kills", 0))):
+        ev += ["XCrash", "XReopen"]
+        desc += ["SIGKILL", "Open on the same directory" if k == int(r.get("later_kills", 0)) else "Open on the same directory by the next writer (killed in turn)"]
     for g, d in gets:
         ev.append(g)
         desc.append(d)
@@ -100,8 +101,10 @@ def run(ctx):
     ctx.cov["kill_delay_ms_hist"] = hist([r["delay_ms"] for r in cyc], [0, 2, 10, 50, 150, 300])
     ctx.cov["reopen_ms_hist"] = hist([r["reopen_ms"] for r in cyc], [50, 100, 200, 500, 2000])
     ctx.cov["reopens_ok"] = sum(1 for r in cyc if r["reopen_ok"])
+    ctx.cov["kills_followed_directly_by_the_next_writer"] = sum(1 for r in cyc if r.get("deferred"))
+    ctx.cov["later_kills_before_verification_hist"] = hist([r.get("later_kills", 0) for r in cyc], [0, 1, 2, 3])
     ctx.cov["identifiers_with_expectation_at_end"] = cyc[-1]["total_ids"]
-    inflight_found = sum(1 for r in cyc for w in (r.get("window") or []) if w["found"] and not w["acked"][w["vers"].index(w["gotver"])]) if cyc else 0
+    inflight_found = sum(1 for r in cyc for w in (r.get("window") or []) if w["found"] and w["gotver"] in w["vers"] and not w["acked"][w["vers"].index(w["gotver"])])
     ctx.cov["unacknowledged_stores_found_after_kill"] = inflight_found
     ctx.cov["unacknowledged_stores_lost_by_kill"] = sum(1 for r in cyc for w in (r.get("window") or []) if not w["acked"][-1] and (not w["found"] or w["gotver"] != w["vers"][-1]))
     ctx.cov["extracted"] = (st.get("db_store") or {}).get("info")
